@@ -317,7 +317,7 @@ ALGOS = {
     "NSGAIII": (lambda p, n, kw: A.NSGAIII(p, divisions_outer=max(2, n // 3), **kw), {"multi"}),
     "EpsMOEA": (lambda p, n, kw: A.EpsMOEA(p, epsilons=[0.5], population_size=n, **kw), set()),
     "EpsNSGAII": (lambda p, n, kw: A.EpsNSGAII(p, epsilons=[0.5], population_size=n, **kw), set()),
-    "GDE3": (lambda p, n, kw: A.GDE3(p, population_size=max(n, 5), **{k: v for k, v in kw.items() if k != "variator"}), {"real"}),
+    "GDE3": (lambda p, n, kw: A.GDE3(p, population_size=max(n, 5), **{k: v for k, v in kw.items() if k != "variator" or isinstance(v, O.DifferentialEvolution)}), {"real"}),
     "SPEA2": (lambda p, n, kw: A.SPEA2(p, population_size=n, **kw), set()),
     "MOEAD": (lambda p, n, kw: A.MOEAD(p, population_size=max(n, 4), neighborhood_size=3, **kw), {"multi"}),
     "IBEA": (lambda p, n, kw: A.IBEA(p, population_size=n, **kw), {"unconstrained", "multi"}),
@@ -350,6 +350,9 @@ def applicable(name, spec):
 def explicit_variator(name, spec, rng):
     """an explicitly supplied operator appropriate for the variable type (None = library default)"""
     k = spec.kind
+    if name == "GDE3":
+        # GDE3 is built around differential evolution: any crossover rate, step sizes below and above 1
+        return O.DifferentialEvolution(rng.choice([0.1, 0.5, 1.0]), rng.choice([0.5, 1.0, 1.5, 2.0]))
     if k == "mixed":
         # the documented recipe for mixed types: one compound operator made of the per-type operators
         if name in MUTATION_ONLY:
@@ -365,6 +368,7 @@ def explicit_variator(name, spec, rng):
     var = {"real": lambda: rng.choice([O.GAOperator(O.SBX(1.0, 15.0), O.PM(1, 20.0)), O.SBX(0.9, 2.0),
                                        O.GAOperator(O.PCX(3, 2), O.PM(1, 20.0)), O.GAOperator(O.UNDX(3, 2), O.PM(1)),
                                        O.GAOperator(O.SPX(3, 2), O.PM(1)), O.GAOperator(O.DifferentialEvolution(0.5, 0.5), O.PM(1)),
+                                       O.GAOperator(O.DifferentialEvolution(0.3, 1.5), O.PM(1)), O.GAOperator(O.DifferentialEvolution(1.0, 2.0), O.UM(0.3)),
                                        O.CompoundOperator(O.SBX(), O.PM(), O.UM())]),
            "int": lambda: O.GAOperator(O.HUX(1.0), O.BitFlip(1)), "binary": lambda: O.GAOperator(O.HUX(0.8), O.BitFlip(1)),
            "perm": lambda: rng.choice([O.GAOperator(O.PMX(1.0), O.Swap(0.5)), O.CompoundOperator(O.PMX(0.9), O.Insertion(0.5), O.Swap(0.3))]),
